@@ -769,6 +769,23 @@ def c07(ctx):
             steps[k] = dict(steps[k], fail={"at": 1, "mode": "once"})
         scripts.append({"sid": sid, "cfg": {"cmd": 64, "hcap": hcap, "set": "raw", "prompt": 0, "rawproc": rng.random() < 0.3}, "steps": steps})
         sid += 1
+    # the echo of every quote (or of every backslash) fails in the sink, or the redraw of a recalled quoted line
+    # fails: what is submitted afterwards is still tokenised by the quoting rules
+    for ln in [l for l in cli_lines if 0x22 in l][: (150 if q else 3000)]:
+        bs = utf8s(ln)
+        for victim in (0x22, 0x5C):
+            if victim not in bs:
+                continue
+            steps = [dict({"ev": "byte", "b": b}, **({"fail": {"at": 1, "mode": "once"}} if b == victim else {})) for b in bs]
+            steps.append({"ev": "byte", "b": 13})
+            scripts.append({"sid": sid, "cfg": {"cmd": 64, "hcap": 0, "set": "raw", "prompt": 0}, "steps": steps})
+            sid += 1
+        steps = [{"ev": "byte", "b": b} for b in bs] + [{"ev": "byte", "b": 13}]
+        up = scen(["<up>"])
+        up[-1]["fail"] = {"at": rng.randint(1, 5), "mode": "once"}
+        steps += up + [{"ev": "byte", "b": 13}]
+        scripts.append({"sid": sid, "cfg": {"cmd": 64, "hcap": 64, "set": "raw", "prompt": 0}, "steps": steps})
+        sid += 1
     validate_cli(ctx, vh, scripts, "C07", "c07", shards=12)
     return ctx.finish("every line of length <= %d over 6 symbols through the real Tokens::new, each record validated by TLC "
                       "against Tokenizer!TokenizeSet; rendered lists (round trip) and random long lines; spec-level round-trip "
